@@ -4,7 +4,9 @@ package app_test
 // A history = one chain state: 3 lock owners (+2 pure reward receivers, +1 gauge creator), 2 lock denoms,
 // lock durations around the lockable set, 6 reward denoms (base denom, "stake", two balancer-priced denoms, one of which can lose
 // its protorev route, "rewe" priced by a balancer pool that in some histories is so expensive that the pool's quote of the
-// minimum FAILS, "rewz" priced by a concentrated pool that in half of the histories quotes the minimum as 0), a configured
+// minimum FAILS (the denom is then not valuable in that epoch; before repository fix d4c28ad126 the whole hook failed), "rewz"
+// priced by a concentrated pool that in half of the histories quotes the minimum as 0 (every positive share is then owed;
+// before af3cbe6371 only the first lock was paid), a configured
 // minimum of 0 / 1 .. 10000 / 1e15, lock-based gauges perpetual / non-perpetual (1..6 epochs) starting before / at / after "now", top-ups.
 // Between epochs locks are created / topped up / begin unlocking (fully or split) / change their reward receiver / mature.
 // An epoch = incentives.AfterEpochEnd(distribution epoch identifier) on a context whose block time advanced, inside a cache
@@ -612,6 +614,7 @@ func runIncentives(t *testing.T, seed int64, n int, dir string) {
 								o.Fail("addtogauge:coins", line)
 							}
 							// finished gauges pay nothing, for ever: a deposit into a gauge of the finished store can never be paid out
+							// (since repository fix 21bb9c1bc7 a finished gauge has all its epochs filled and rejects it)
 							if p.status == "F" {
 								key := "addtogauge:accepted-into-finished-gauge"
 								if !p.perpetual && p.filled < p.n {
@@ -805,7 +808,8 @@ func runIncentives(t *testing.T, seed int64, n int, dir string) {
 				emit(line, "err", true)
 				o.Count("epoch.err")
 				// does a gauge that pays in this epoch hold a coin whose minimum-value quote fails?  (book-keeping of the
-				// engine only: active or due gauges with a qualifying lock and a non-spam remainder)
+				// engine only: active or due gauges with a qualifying lock and a non-spam remainder; since repository fix d4c28ad126
+				// such a quote must not fail the hook: every epoch:hook-failed key is a violation)
 				key := "epoch:hook-failed"
 				for _, id := range sortedIds(pre) {
 					g := pre[id]
@@ -1039,7 +1043,8 @@ func runIncentives(t *testing.T, seed int64, n int, dir string) {
 					}
 					v := thr[d]
 					zeroMin := d != base && v.amt != nil && v.amt.Sign() == 0
-					// with a converted minimum of 0 every positive share is owed; the code is SEEN to pay at most one lock
+					// with a converted minimum of 0 every positive share is owed; before repository fix af3cbe6371 the code paid at most one
+					// lock (class kept to name a regression: its keys are no longer known findings)
 					paidOne := -1
 					if zeroMin && got.Sign() > 0 && got.Cmp(want) < 0 {
 						for i, ls := range owed[d] {
